@@ -35,6 +35,8 @@ def main(argv=None) -> int:
         return mod.replay(rp)
     from vf.core import Report
 
+    if args.update_obligations:
+        os.environ["VERIF_UPDATING_OBLIGATIONS"] = "1"
     report = Report(args.prop, args.tier, seed, mod.LEVEL)
     try:
         mod.run(report, args.tier, seed)
